@@ -284,6 +284,12 @@ func (p *projSpec) applySpecEdit(op *opSpec) bool {
 				t.DepSpell = append(t.DepSpell, 0)
 			}
 		}
+	case "set-module-fails":
+		// a helper module gains (N=1) or loses (N=0) a statement that fails while it loads
+		mi, _ := strconv.Atoi(op.Item)
+		if mi >= 0 && mi < len(p.Modules) {
+			p.Modules[mi].Fails, p.Modules[mi].FailHow = op.N != 0, op.N%3
+		}
 	case "set-always":
 		// always= is an attribute of the target() call, not of the function's environment
 		if t := p.target(op.Label); t != nil {
